@@ -11,7 +11,7 @@ REQUIRES = ["Simplify", "SimplifyCache"]
 FUNCTIONS = ["simp_default", "simplify_batch", "simplify_cached", "run", "visit", "get_fixed_point", "lookup", "update"]
 COVERS = ("cache-free result of every batch member; per-member results and the FINAL CACHE (all entries, in the model's order) of the "
           "memoising driver model on the recorded order, for the histories whose cache the harness dumped")
-QUICK_N = 60
+QUICK_N = 24
 THOROUGH_N = 1200
 SHARD = 60
 # the memoising model keeps its cache as an association list over trees compared with expr_eqb: seconds per case inside the VM
